@@ -586,6 +586,39 @@ func runC08(c *Ctx) error {
 			c.R.Sample(map[string]any{"store": name, "ops": ops[:min(len(ops), 6)], "walk": "roots <bs> <key> until key = -"}, 4)
 		}
 	}
+	// one long chain (beyond any plausible page cap) walked with page sizes around and far above 2000: the walk has to
+	// cover every block whatever the requested size
+	{
+		n := 2100
+		nodes := make([]Node, 0, n+3)
+		for i := 0; i < n; i++ {
+			nodes = append(nodes, Node{Parent: i - 1, Bits: bitsSmall[1]})
+		}
+		nodes = append(nodes, Node{Parent: 1000, Bits: bitsSmall[0]}, Node{Parent: 2050, Bits: bitsSmall[0]}, Node{Parent: -2, Bits: bitsSmall[0]})
+		buildTree(nodes, 8800+uint32(c.Seed), nil, false)
+		order := make([]int, len(nodes))
+		for i := range order {
+			order[i] = i
+		}
+		ops := addsOnly(historyOps(nodes, order, nil, false))
+		name := fmt.Sprintf("long chain n=%d", n)
+		t, err := ingest(c, ci, l, name, ops)
+		if err != nil {
+			return err
+		}
+		ctx := []string{fmt.Sprintf("# %s (chain of %d headers with two stale siblings and an orphan, seed %d)", name, n, c.Seed)}
+		sizes := []int{700, 1999, 2000, 2001, 5000}
+		if c.Thorough {
+			sizes = append(sizes, 1, 1000, 2100, 2101, 2102, 100000)
+		}
+		for _, bs := range sizes {
+			if err := c08Walk(c, ci, l, t, name, ctx, bs, nil); err != nil {
+				return err
+			}
+			c.R.Case(fmt.Sprintf("%s bs=%d", name, bs), true)
+			c.R.Count("walk:long chain", 1)
+		}
+	}
 	c.R.ModelOps = l.Ops
 	return nil
 }
